@@ -34,6 +34,7 @@ func emptyFont() *type1.Font {
 func runCharstring(items []indep.CSItem) (pts [][2]float64, width float64, hints []float64, err error) {
 	var st []float64
 	x, y := 0.0, 0.0
+	sbx, sby := 0.0, 0.0
 	for _, it := range items {
 		if it.Num {
 			st = append(st, float64(it.V))
@@ -49,10 +50,14 @@ func runCharstring(items []indep.CSItem) (pts [][2]float64, width float64, hints
 			continue
 		case "hsbw":
 			x, y, width = st[0], 0, st[1]
+			sbx, sby = x, y
 		case "sbw":
 			x, y, width = st[0], st[1], st[2]
-		case "hstem", "vstem":
-			hints = append(hints, st[0], st[0]+st[1])
+			sbx, sby = x, y
+		case "hstem":
+			hints = append(hints, sby+st[0], sby+st[0]+st[1]) // relative to the side bearing point
+		case "vstem":
+			hints = append(hints, sbx+st[0], sbx+st[0]+st[1])
 		case "rmoveto":
 			x, y = x+st[0], y+st[1]
 			pts = append(pts, [2]float64{x, y})
@@ -198,6 +203,19 @@ func traceT1Nums(args []string) error {
 		}
 		f.Glyphs[fmt.Sprintf("w%d", i)] = g
 	}
+	// stem hints of glyphs whose outline starts away from the origin (hint values are relative to the
+	// side bearing point the charstring declares, whatever that is)
+	lefts := []float64{0, 50, -30, 1131.5, 20000}
+	for i, left := range lefts {
+		g := &type1.Glyph{WidthX: 600}
+		g.MoveTo(left, 10)
+		g.LineTo(left+200, 10)
+		g.LineTo(left+100, 700)
+		g.ClosePath()
+		g.HStem = []funit.Int16{10, 30, 680, 700}
+		g.VStem = []funit.Int16{funit.Int16(int(left) % 30000), funit.Int16(int(left)%30000 + 80)}
+		f.Glyphs[fmt.Sprintf("hinted%d", i)] = g
+	}
 	var buf bytes.Buffer
 	if err := f.Write(&buf, &type1.WriterOptions{Format: type1.FormatBinary}); err != nil {
 		return err
@@ -275,6 +293,38 @@ func traceT1Nums(args []string) error {
 				rh = int64(back.Glyphs[name].HStem[0])
 			}
 			enc.Encode(map[string]any{"ev": "num", "ctx": "hint", "want": v, "bytes": ints(items[3].Bytes), "read": rh})
+		}
+	}
+
+	for i := range lefts {
+		name := fmt.Sprintf("hinted%d", i)
+		g := f.Glyphs[name]
+		items, err := indep.DecodeCharstring(ap.Glyphs[name])
+		if err != nil {
+			fails = append(fails, fail{"nums: written charstring not decodable", err.Error(), name})
+			continue
+		}
+		// hstem operands first, then vstem ones; runCharstring places them relative to the side bearing point
+		_, _, hints, err := runCharstring(items)
+		wantH := append(append([]funit.Int16{}, g.HStem...), g.VStem...)
+		rb := back.Glyphs[name]
+		if err != nil || len(hints) != len(wantH) || rb == nil || len(rb.HStem)+len(rb.VStem) != len(wantH) {
+			fails = append(fails, fail{"nums: hint count differs", fmt.Sprintf("%v: %d hints decoded, %d wanted", err, len(hints), len(wantH)), name})
+			continue
+		}
+		readH := append(append([]funit.Int16{}, rb.HStem...), rb.VStem...)
+		for k, wv := range wantH {
+			events++
+			if hints[k] != float64(wv) {
+				fails = append(fails, fail{"nums: hint value decodes to another position", fmt.Sprintf("hint %d of %s: %v decoded by the independent decoder, %d in the font", k, name, hints[k], wv),
+					fmt.Sprintf("glyph with stem hints whose outline starts at x=%v", lefts[i])})
+				break
+			}
+			if readH[k] != wv {
+				fails = append(fails, fail{"nums: hint value read back differs", fmt.Sprintf("hint %d of %s: %d read, %d in the font", k, name, readH[k], wv),
+					fmt.Sprintf("glyph with stem hints whose outline starts at x=%v", lefts[i])})
+				break
+			}
 		}
 	}
 
@@ -417,10 +467,13 @@ func traceT1Nums(args []string) error {
 	}
 	// staircases: one command form per glyph, every step 10 + 1/300, so that the
 	// rounding errors all have the same sign and add up unless the writer compensates
-	stairs := []string{"rlineto", "hlineto", "vlineto", "rrcurveto", "hvcurveto", "vhcurveto", "mixed", "moves"}
+	stairs := []string{"rlineto", "hlineto", "vlineto", "rrcurveto", "hvcurveto", "vhcurveto", "mixed", "moves", "hcreep", "vcreep"}
 	// steps per staircase: as many as fit into a charstring of 65535 bytes (the property
 	// speaks of paths of up to 10,000 segments: the h and v line forms reach that)
 	nstOf := func(form string) int {
+		if form == "hcreep" || form == "vcreep" {
+			return 6000 // the creep passes 1/214 after about 5200 steps
+		}
 		if tier != "thorough" {
 			return 60
 		}
@@ -446,6 +499,14 @@ func traceT1Nums(args []string) error {
 				fm = []string{"hlineto", "rrcurveto", "vlineto", "rlineto"}[s%4]
 			}
 			switch fm {
+			case "hcreep":
+				// whole steps along x while y creeps by less than the writer's alignment tolerance per
+				// step, always upwards: what is never written must not be counted as written either
+				px, py = px+10, py+9e-7
+				g.LineTo(px, py)
+			case "vcreep":
+				px, py = px+9e-7, py+10
+				g.LineTo(px, py)
 			case "moves":
 				// whole units: a diagonal line, then a new contour exactly beside (hmoveto) or above
 				// (vmoveto) the current point, alternately
